@@ -57,8 +57,11 @@ def build_harness(profile="debug"):
         toml = open(os.path.join(hdir, "Cargo.toml")).read().replace('"/repo', '"' + REPO)
         if not os.path.exists(os.path.join(alt, "Cargo.toml")) or open(os.path.join(alt, "Cargo.toml")).read() != toml:
             open(os.path.join(alt, "Cargo.toml"), "w").write(toml)
-        if not os.path.islink(os.path.join(alt, "src")):
-            os.symlink(os.path.join(hdir, "src"), os.path.join(alt, "src"))
+        link = os.path.join(alt, "src")
+        if os.path.islink(link) and os.readlink(link) != os.path.join(hdir, "src"):
+            os.remove(link)          # a copied scratch framework: the link must follow THIS copy's sources
+        if not os.path.islink(link):
+            os.symlink(os.path.join(hdir, "src"), link)
         hdir = alt
     lock_src = REPO + "/Cargo.lock"
     lock_dst = os.path.join(hdir, "Cargo.lock")
